@@ -31,7 +31,9 @@ Next ==
        /\ grp' = IF e.ev = "Begin" THEN e.grp ELSE grp
        /\ mode' = IF e.ev = "Begin" THEN e.norm.mode ELSE mode
        /\ exp' = IF e.ev = "Begin" THEN ""
-                 ELSE IF e.ev \in {"Log", "Chunk"} /\ Ok(e) THEN exp \o e.hex ELSE exp
+                 \* (a record marked "lost" is logged while an obstacle keeps the writer from opening its file: its call
+                 \* returns, the failure is reported, the record is in no file - under every write mode)
+                 ELSE IF e.ev \in {"Log", "Chunk"} /\ Ok(e) /\ ~("q" \in DOMAIN e /\ e.q = "lost") THEN exp \o e.hex ELSE exp
        /\ hasref' = IF e.ev = "Begin" THEN (e.grp = grp /\ hasref) ELSE IF IsFinal(e) THEN TRUE ELSE hasref
        /\ ref' = IF IsFinal(e) /\ ~hasref THEN Fin(e.obs.files) ELSE IF e.ev = "Begin" /\ e.grp # grp THEN <<>> ELSE ref
        /\ IF IsFinal(e)
@@ -40,6 +42,7 @@ Next ==
                /\ Chk(e, "ModeIndependent", ~hasref \/ fin = ref)
                /\ Cnt(1, TRUE) /\ Cnt(2, hasref) /\ Cnt(3, Len(fin) > 1)
                /\ Cnt(4, mode = "async") /\ Cnt(5, mode = "buf")
+               /\ Cnt(6, \E j \in 1..l : Rec[j].sc = e.sc /\ "q" \in DOMAIN Rec[j] /\ Rec[j].q = "lost")
           ELSE TRUE
     /\ Finish
 Spec == Init /\ [][Next]_vars
